@@ -10,7 +10,7 @@ import (
 
 // C01 — resource values survive a marshal/unmarshal round trip.
 
-var c01IDs = []string{"a", "\x1b\x7f\U000E0001", "a b", "<&>\"\\", "x\x00y", "é", "日本", longStr, "1", "a/b?c=d&e#f%20", " "}
+var c01IDs = []string{"a", "\x1b\x7f\U000E0001", "x\\u003cy\\u0026", "a b", "<&>\"\\", "x\x00y", "é", "日本", longStr, "1", "a/b?c=d&e#f%20", " "}
 
 // roundTrip marshals res (all fields, all relationship data) and unmarshals it
 // against schema through the resource path (doc=false) or the document path.
@@ -187,7 +187,7 @@ func c01Rel(x *mc.Exec) {
 	one := ones[x.Choose(len(ones), "to-one")]
 	// includes ids that JSON must escape (control characters, DEL, a
 	// non-printable supplementary-plane rune, quote and backslash)
-	pool := []string{"a", "b", "c\x01\x7f", "\a\v\x00\U000E0001\"\\é"}
+	pool := []string{"a", "b", "c\x01\x7f", "\a\v\x00\U000E0001\"\\é\\u003e"}
 	maxLen := 3
 	if Thorough() {
 		maxLen = 4
@@ -288,6 +288,48 @@ func c01APIBuilt(x *mc.Exec) {
 	c01Check(x, "api-built", s, ru, true, "api-built-u")
 }
 
+// c01EditedType: a live soft resource whose type is edited in place (a field
+// renamed, so the number of fields stays the same; a field added; a field
+// removed) must still round-trip: the new field holds its zero value.
+func c01EditedType(x *mc.Exec) {
+	kinds := []Kind{kInt, kStr, kPInt, {j.AttrTypeBytes, false}, {j.AttrTypeTime, false}, kBool}
+	k := kinds[x.Choose(len(kinds), "kind of the new field")]
+	edit := x.Choose(3, "edit")
+	touch := x.Bool("read before the edit")
+	d := TypeD{Name: "t", Attrs: []AttrD{{"count", kInt}, {"s", kStr}}, Rels: []RelD{{"one", true, "t", ""}}}
+	typ := d.SoftType()
+	schema := &j.Schema{}
+	res := &j.SoftResource{Type: &typ}
+	res.Set("id", "id1")
+	res.Set("count", 5)
+	res.Set("s", "v")
+	if touch {
+		_ = res.Get("count")
+		_ = res.Attrs()
+	}
+	desc := ""
+	switch edit {
+	case 0:
+		typ.RemoveAttr("count")
+		_ = typ.AddAttr(j.Attr{Name: "total", Type: k.Type, Nullable: k.Nullable})
+		desc = "rename count -> total (" + k.String() + ")"
+	case 1:
+		_ = typ.AddAttr(j.Attr{Name: "total", Type: k.Type, Nullable: k.Nullable})
+		desc = "add total (" + k.String() + ")"
+	case 2:
+		typ.RemoveRel("one")
+		_ = typ.AddRel(j.Rel{FromType: "t", FromName: "many", ToType: "t"})
+		desc = "replace to-one one by to-many many"
+	}
+	if err := schema.AddType(typ.Copy()); err != nil {
+		panic(err)
+	}
+	x.Render(fmt.Sprintf("%s, read before edit: %v", desc, touch))
+	x.R.Mark("nontrivial", mc.Hash(desc, touch))
+	x.R.Sample("edited-type", desc)
+	c01Check(x, "edited-type", schema, res, true, "edited-type")
+}
+
 func init() {
 	Register(&Prop{
 		ID: "C01",
@@ -298,6 +340,7 @@ func init() {
 			{Name: "C01/wide", Body: c01Wide},
 			{Name: "C01/rel", Body: c01Rel, Dev: func() int { return 1 }},
 			{Name: "C01/api-built", Body: c01APIBuilt},
+			{Name: "C01/edited-type", Body: c01EditedType},
 		},
 	})
 }
